@@ -223,7 +223,8 @@ Definition check (c : c03case) : list nat :=
       (if is_prefix (fst obs) sent then [] else [2%nat]) ++
       (match snd obs with
        | Some (Some (c, m, d)) =>
-           if (c =? cCanceled) || (c =? cDeadlineExceeded)
+           (* rk >= 10: the caller's deadline passed (DeadlineExceeded); else it cancelled (Canceled) *)
+           if (c =? (if rk >=? 10 then cDeadlineExceeded else cCanceled))
               || match k with Some k' => st3_eqb (c, m, d) (spec_status true k') | None => false end
            then [] else [2%nat]
        | _ => [2%nat]      (* io.EOF, or still "succeeding" *)
